@@ -329,6 +329,7 @@ where
             payload_counter += 1;
             format!("write#{payload_counter} of key {k} by node{}", op.node).into_bytes()
         };
+        let window = crate::stores::call_window(node.id);
         let res = match op.kind {
             Kind::Put(k) => node.store.put(KS, k, payload(k), op.level).await.map_err(|e| e.to_string()),
             Kind::Del(k) => node.store.del(KS, k, op.level).await.map_err(|e| e.to_string()),
@@ -345,6 +346,7 @@ where
             Kind::DelMany => node.store.del_many(KS, vec![1u64, 2u64], op.level).await.map_err(|e| e.to_string()),
             Kind::RepairFrom(_) => Err("repair clients exist in the concurrency block only".to_string()),
         };
+        drop(window);
         vkit::e2::settle().await;
         if skew > 0 {
             wall.rewind(std::time::Duration::from_secs(skew * 60));
@@ -457,15 +459,17 @@ where
 
 
 /// Locally issued writes: a node's own storage log entries whose stamp carries its id and
-/// that reached *its* storage before any other node's (replicated copies carry the origin's
-/// id; a copy whose stamp was altered on the way carries the origin's id too, but shows up at
-/// a replica first and comes back to the origin by anti-entropy — that is not an operation
-/// anybody issued).
+/// that were written there while one of the node's own client calls was running, or that
+/// reached *its* storage before any other node's (replicated copies carry the origin's id;
+/// a copy whose stamp was altered on the way carries the origin's id too, but shows up at a
+/// replica first and comes back to the origin by anti-entropy, outside any client call — that
+/// is not an operation anybody issued).
 fn reference_from_logs<I>(cluster: &Cluster<FaultStore<I>>) -> (BTreeMap<Key, Doc>, usize)
 where
     I: Storage,
     I::Error: std::fmt::Display,
 {
+    let windows = crate::stores::call_windows();
     let mut first_seen: BTreeMap<(Key, HLCTimestamp), (u64, NodeId)> = BTreeMap::new();
     for n in &cluster.nodes {
         for e in n.storage.log() {
@@ -488,7 +492,9 @@ where
                 continue;
             }
             for (id, ts, data) in &e.docs[..e.written.min(e.docs.len())] {
-                if ts.node() != n.id || first_seen.get(&(*id, *ts)).map(|f| f.1) != Some(n.id) {
+                let first_here = first_seen.get(&(*id, *ts)).map(|f| f.1) == Some(n.id);
+                let during_own_call = windows.iter().any(|(node, start, end)| *node == n.id && *start <= e.seq && e.seq < *end);
+                if ts.node() != n.id || !(first_here || during_own_call) {
                     continue;
                 }
                 count += 1;
@@ -600,6 +606,7 @@ pub fn run_concurrent(cfg: &ExecCfg, pair: &[OpSpec], prefix: &[usize]) -> (Run,
             wall.tick();
             let node = &cluster.nodes[op.node];
             let payload = |k: Key| format!("prelude write {pi} of key {k} by node{}", op.node).into_bytes();
+            let _window = crate::stores::call_window(node.id);
             let _ = match op.kind {
                 Kind::Put(k) => node.store.put(KS, k, payload(k), op.level).await.map_err(|e| e.to_string()),
                 Kind::Del(k) => node.store.del(KS, k, op.level).await.map_err(|e| e.to_string()),
@@ -632,8 +639,10 @@ pub fn run_concurrent(cfg: &ExecCfg, pair: &[OpSpec], prefix: &[usize]) -> (Run,
                 let network = cluster.nodes[op.node].network.clone();
                 let slot = trackers[ci].clone();
                 let op = *op;
+                let issuer_id = cluster.nodes[op.node].id;
                 Some(Box::pin(async move {
                     let payload = |k: Key| format!("concurrent write {ci} of key {k} by node{}", op.node).into_bytes();
+                    let _window = if matches!(op.kind, Kind::RepairFrom(_)) { None } else { Some(crate::stores::call_window(issuer_id)) };
                     let _ = match op.kind {
                         Kind::Put(k) => store.put(KS, k, payload(k), op.level).await.map_err(|e| e.to_string()),
                         Kind::Del(k) => store.del(KS, k, op.level).await.map_err(|e| e.to_string()),
